@@ -654,6 +654,59 @@ fn tail_rc(case: &c01::Case, set: &[Cfg]) -> Option<(String, String, c01::Case)>
     o.tail_failures.into_iter().next().map(|(sig, msg, cfg)| (format!("{} {}", cfg.map(|c| c.name()).unwrap_or("-"), sig), msg, case.clone()))
 }
 
+/// The premise of the tail clause - "the library's conversions produce a -inf wildcard column for backgrounds giving
+/// the wildcard zero frequency" - on count data WITH wildcard counts, through both routes (one step; through the weight
+/// matrix), followed by the tail clause on the matrices obtained. Returns failures as (signature, message, case).
+fn tail_conversions(l: usize, set: &[Cfg]) -> Vec<(String, String, c01::Case)> {
+    use lightmotif::dense::DenseMatrix;
+    use lightmotif::num::U5;
+    use lightmotif::pwm::CountMatrix;
+    let mut out = Vec::new();
+    // counts in alphabet order A C T G N; every row has wildcard counts
+    let menus: [&[[u32; 5]]; 3] = [&[[3, 1, 0, 2, 1]], &[[0, 4, 1, 1, 2], [2, 2, 2, 1, 1]], &[[5, 0, 0, 1, 3], [1, 1, 1, 1, 4], [0, 0, 6, 0, 1]]];
+    for rows in menus {
+        for route in 0..2usize {
+            let built = catch(|| {
+                let dm = DenseMatrix::<u32, U5>::from_rows(rows.iter().map(|r| &r[..]).collect::<Vec<_>>());
+                let cm = CountMatrix::<Dna>::new(dm).map_err(|_| ()).expect("equal row totals are not required");
+                let fm = cm.to_freq(0.1);
+                let sm = if route == 0 { fm.to_scoring(None) } else { fm.to_weight(None).to_scoring() };
+                sm.matrix().iter().map(|r| r.to_vec()).collect::<Vec<Vec<f32>>>()
+            });
+            let name = if route == 0 { "to_freq(0.1).to_scoring(None)" } else { "to_freq(0.1).to_weight(None).to_scoring()" };
+            let case = |matrix: Vec<Vec<f32>>| c01::Case {
+                alpha: "dna",
+                seq: model::digit_pattern(l, 5, 1),
+                matrix,
+                origin: format!("tail/conversion {} of counts {:?} L={}", name, rows, l),
+                wrap_override: None,
+                spare_rows: 0,
+                trimmed_rows: 0,
+                cloned: 0,
+            };
+            match built {
+                Err(p) => out.push((format!("conversion panic {}", vx_core::util::panic_class(&p)), format!("{} panicked: {}", name, p), case(vec![]))),
+                Ok(m) => {
+                    if let Some(i) = m.iter().position(|r| r[4] != f32::NEG_INFINITY) {
+                        out.push((
+                            "conversion: wildcard column not -inf".into(),
+                            format!("{} of counts {:?} (uniform background: wildcard frequency 0): row {} holds {} in the wildcard column", name, rows, i, m[i][4]),
+                            case(m.clone()),
+                        ));
+                        continue;
+                    }
+                    let c = case(m);
+                    let o = c01::check_case::<Dna>(&c, set, true);
+                    if let Some((sig, msg, cfg)) = o.tail_failures.into_iter().next() {
+                        out.push((format!("conversion {} {}", cfg.map(|c| c.name()).unwrap_or("-"), sig), msg, c));
+                    }
+                }
+            }
+        }
+    }
+    out
+}
+
 fn run_tail(ctx: &mut Ctx, rep: &mut Report, base: &mut u64) {
     let lens: Vec<usize> = if ctx.quick() {
         let mut v: Vec<usize> = (0..=130).collect();
@@ -699,6 +752,16 @@ fn run_tail(ctx: &mut Ctx, rep: &mut Report, base: &mut u64) {
                             j["kind"] = json!("tail");
                             j
                         });
+                    }
+                    if alpha == "dna" && kind == "int" && m == 1 && (l <= 70 || l % 31 == 0) {
+                        for (sig, msg, c) in tail_conversions(l, &set) {
+                            rep.violation(format!("C07 tail dna {}", sig), msg, || {
+                                let mut j = c.json(None);
+                                j["kind"] = json!("tail_conv");
+                                j
+                            });
+                        }
+                        rep.eval_distinct(l >= 1);
                     }
                     // the reverse-strand matrix is one of "the library's conversions": its wildcard column must still be
                     // -inf, and the tail clause must hold when scoring with it
@@ -831,7 +894,7 @@ pub fn run(ctx: &mut Ctx, rep: &mut Report) {
         rep.space(
             "tail",
             "clause 2: for matrices whose wildcard column is -inf, every float cell past the last valid position is -inf, the largest cell of the score matrix is the best valid position's score (an empty matrix while a valid position exists is a violation) and StripedScores::max() is that score; \
-             for DNA also on ScoringMatrix::reverse_complement() of the matrix (one of the library's conversions: its wildcard column must still be -inf); \
+             for DNA also on ScoringMatrix::reverse_complement() of the matrix (one of the library's conversions: its wildcard column must still be -inf) and on matrices obtained from counts WITH wildcard counts through to_scoring and through to_weight().to_scoring() under the uniform background (the wildcard column must be -inf on both routes); \
              product L (0..=130 + vector/transposition boundaries; thorough 0..=400 + more) x M {1,2,3,8,34} x 3 matrix kinds x {DNA,protein} x 8 configurations incl. dispatcher arms; non-trivial = L>=M and L not a multiple of 32",
         );
         run_tail(ctx, rep, &mut base);
@@ -850,6 +913,15 @@ pub fn replay(_ctx: &mut Ctx, rep: &mut Report, v: &Value) {
             rep.eval_distinct(true);
             if let Err((sig, msg)) = tail_reuse_one(cfg, &h) {
                 rep.violation(sig, msg, || v.clone());
+            }
+        }
+        "tail_conv" => {
+            // the case is (length of the probe sequence): the count menus and both routes are re-run through the library
+            let l = v["len"].as_u64().unwrap_or(0) as usize;
+            let set = [Cfg::GenU32, Cfg::GenU4, Cfg::SseU16, Cfg::SseU32, Cfg::AvxU32, Cfg::DispGen, Cfg::DispSse, Cfg::DispAvx];
+            rep.eval_distinct(true);
+            for (sig, msg, c) in tail_conversions(l, &set) {
+                rep.violation(format!("C07 tail dna {}", sig), msg, || c.json(None));
             }
         }
         "tail_rc" => {
